@@ -23,6 +23,10 @@ class World:
             self.type_names.setdefault(c.__name__, c)
             self.type_names[c.__module__ + '.' + c.__qualname__] = c
             self.type_names[c.__qualname__] = c
+        try:
+            self.type_names['WlArg'] = repo.resolve('core.wl.arg.Arg')      # unambiguous alias (core.wl.protocol has an Arg too)
+        except Exception:
+            pass
         self.register_constants()
         self.register_gdb_stub()
 
@@ -41,7 +45,7 @@ class World:
         try:
             m = repo.load('backends.gdb_plugin.plugin')
             g = m.gdb
-            for n in ('Thread', 'Value', 'Frame'):
+            for n in ('Thread', 'Value', 'Frame', 'Type'):
                 k = getattr(g, n)
                 self.class_id(k)
                 self.type_names['gdb.' + n] = k
